@@ -13,6 +13,7 @@ from .. import templates
 from ..ode import ODE
 from .. import atoms
 from .. import schemes
+from .. import exceptions
 
 logger = structlog.get_logger()
 
@@ -103,6 +104,10 @@ class Shape(str, Enum):
 
 class CodeGenerator(abc.ABC):
     variable_prefix = ""
+    # Names that the generated code uses for its own variables
+    reserved_names: frozenset[str] = frozenset(
+        {"t", "time", "dt", "states", "parameters", "values", "shape", "missing_variables"}
+    )
 
     def __init__(
         self,
@@ -120,6 +125,20 @@ class CodeGenerator(abc.ABC):
             self._condition = lambda x: x in self.deps
         else:
             self._condition = lambda x: True
+
+        self._check_reserved_names()
+
+    def is_reserved_name(self, name: str) -> bool:
+        """Check if the generated code uses this name for one of its own variables"""
+        return name in self.reserved_names or name.endswith("_linearized")
+
+    def _check_reserved_names(self) -> None:
+        """A state, parameter or intermediate with a reserved name would
+        capture (or be captured by) a variable of the generated code"""
+        atoms = self.ode.states + self.ode.parameters + self.ode.intermediates
+        clashes = sorted(atom.name for atom in atoms if self.is_reserved_name(atom.name))
+        if clashes:
+            raise exceptions.ReservedNameError(names=clashes, generator=type(self).__name__)
 
     def _formatter(self, code: str) -> str:
         """Alternative formatter that takes a code snippet
